@@ -341,6 +341,66 @@ class Xform(ast.NodeTransformer):
                 out.append(r)
         return out or [ast.Pass()]
 
+    def _accumulation_loop(self, n, k):
+        """`for x in SEQ: <local assignments>; ACC.append(E)`  or  `...; ACC[K] = E` with ACC a plain local name that the
+        body does not otherwise mention: a map over SEQ.  Rewritten into a call that keeps the loop as it is for concrete
+        sequences and, for a sequence of symbolic length and an accumulator that is still empty, yields the symbolic list /
+        dict a comprehension would give (element expression checked at a generic in-range index).  No invariant needed."""
+        if n.orelse or _has_loop_escape(n.body) or not n.body:
+            return None
+        body = [b for b in n.body if not (isinstance(b, ast.Expr) and isinstance(b.value, ast.Constant))]
+        if not body:
+            return None
+        last = body[-1]
+        kind = acc = key = val = None
+        if isinstance(last, ast.Expr) and isinstance(last.value, ast.Call) and isinstance(last.value.func, ast.Attribute) \
+                and last.value.func.attr == "append" and isinstance(last.value.func.value, ast.Name) \
+                and len(last.value.args) == 1 and not last.value.keywords:
+            kind, acc, val = "list", last.value.func.value.id, last.value.args[0]
+        elif isinstance(last, ast.Assign) and len(last.targets) == 1 and isinstance(last.targets[0], ast.Subscript) \
+                and isinstance(last.targets[0].value, ast.Name) and not isinstance(last.targets[0].slice, (ast.Slice, ast.Tuple)):
+            kind, acc, key, val = "dict", last.targets[0].value.id, last.targets[0].slice, last.value
+        if kind is None:
+            return None
+        pre = body[:-1]
+        locs = set()
+        for b in pre:
+            # only plain assignments to local names and logger calls (dropped) before the accumulation
+            if isinstance(b, ast.Expr) and isinstance(b.value, ast.Call) and isinstance(b.value.func, ast.Attribute) \
+                    and isinstance(b.value.func.value, ast.Name) and b.value.func.value.id in self.logger_names:
+                continue
+            if not (isinstance(b, ast.Assign) and all(isinstance(t, (ast.Name, ast.Tuple)) for t in b.targets)):
+                return None
+            for t in b.targets:
+                for x in ast.walk(t):
+                    if isinstance(x, ast.Name):
+                        locs.add(x.id)
+                    elif not isinstance(x, (ast.Tuple, ast.Store, ast.Load)):
+                        return None
+        mentions = [x for b in pre for x in ast.walk(b) if isinstance(x, ast.Name) and x.id == acc] + \
+                   [x for e in ([key] if key is not None else []) + [val] for x in ast.walk(e) if isinstance(x, ast.Name) and x.id == acc]
+        if mentions or acc in locs:
+            return None
+        for x in ast.walk(ast.Module(pre, [])):
+            if isinstance(x, (ast.For, ast.While, ast.FunctionDef, ast.Lambda, ast.Yield, ast.YieldFrom, ast.Await, ast.Global, ast.Nonlocal)):
+                return None
+        fname = "__acc_body_%d" % k
+        self.depth += 1
+        new_pre = self._stmts(pre) if pre else []
+        ret = ast.Return(ast.Tuple([self.visit(key), self.visit(val)], ast.Load()) if kind == "dict" else self.visit(val))
+        self.depth -= 1
+        # the loop target is bound from the single argument (tuple targets unpack)
+        bind = ast.Assign([n.target], ast.Name("__it", ast.Load()))
+        fdef = ast.FunctionDef(name=fname, args=ast.arguments(posonlyargs=[], args=[ast.arg("__it")], kwonlyargs=[], kw_defaults=[], defaults=[]),
+                               body=[bind] + [b for b in new_pre if not isinstance(b, ast.Pass)] + [ret], decorator_list=[], returns=None, type_params=[])
+        call = ast.Assign([ast.Name(acc, ast.Store())],
+                          ast.Call(ast.Name("__pyvc_accum__", ast.Load()),
+                                   [ast.Name(acc, ast.Load()), ast.Name(fname, ast.Load()), self.visit(n.iter), ast.Constant(kind)], []))
+        for o in (fdef, call):
+            ast.copy_location(o, n)
+            ast.fix_missing_locations(o)
+        return [fdef, call]
+
     def visit_AugAssign(self, n):
         # `a[idx] op= v` -> `a[idx] = a[idx] op v` when `a` and `idx` are side-effect-free expressions: the same final
         # contents for NumPy arrays (NumPy evaluates the right-hand side before storing; the view that `a[idx]` hands to
@@ -400,6 +460,9 @@ class Xform(ast.NodeTransformer):
         self.loop_no += 1
         self.info.loops = self.loop_no
         if k not in self.inv_loops:
+            acc = self._accumulation_loop(n, k)
+            if acc is not None:
+                return acc
             self.generic_visit(n)
             if not n.orelse and n.body and all(isinstance(b, ast.Pass) for b in n.body):
                 # the body consisted of dropped statements only (logger calls): the loop has no effect but the
@@ -536,7 +599,7 @@ def base_namespace():
     from . import engine, sym
     from . import values
     return {"__F__": sym.F, "__J__": sym.J, "__pyvc_snap__": snap, "__pyvc_map__": values.s_map,
-            "__pyvc_dictcomp__": values.s_dictcomp, "__pyvc_genmap__": values.s_genmap,
+            "__pyvc_dictcomp__": values.s_dictcomp, "__pyvc_genmap__": values.s_genmap, "__pyvc_accum__": values.s_accum,
             "__pyvc_range__": engine.RangeIter, "__pyvc_seq__": engine.SeqIter,
             "__pyvc_loop__": _mkloop,
             # numba.prange: a range whose iterations may run concurrently; under A4 (a kernel computes what its Python body
